@@ -239,7 +239,7 @@ PROPS["C14"] = dict(
 
 # ----------------------------------------------------------------------------- mon-tables / sanitizer flavours
 
-HARNESS = os.path.join(os.path.dirname(os.path.dirname(os.path.abspath(__file__))), "harness")
+HARNESS = os.path.join(os.environ.get("VERIF_DEV_ROOT") or os.path.dirname(os.path.dirname(os.path.abspath(__file__))), "harness")
 
 
 def bin_job(prop, pkg, fl, dirpath, ctx, idx, total, extra=None, name=None, wrapper=None, env=None):
@@ -497,4 +497,72 @@ PROPS["C20"] = dict(
                  "override; toggle flips global and flips a set override)",
                  "sub-operation interleavings are reached only by the free-running mechanism's scheduling and by Miri's "
                  "seeded scheduler; schedule length is bounded"],
+)
+
+
+def c07_jobs(ctx):
+    jobs = []
+    thorough = ctx["tier"] == "thorough"
+    n = 8
+    for fl in ("chk", "ship"):
+        d = ctx["build"](fl, "mon-core")
+        for i in range(n):
+            jobs.append(bin_job("C07", "mon-core", fl, d, ctx, i, n))
+    jobs += miri_jobs("C07", "mon-core", ctx, 16 if thorough else 4)
+    if thorough:
+        jobs += [dict(j, name=j["name"].replace("miri", "miri-dev")) for j in miri_jobs("C07", "mon-core", ctx, 8, release=False)]
+        d = ctx["build"]("asan", "mon-core")
+        for i in range(8):
+            jobs.append(bin_job("C07", "mon-core", "asan", d, ctx, i, 8, env=ASAN_ENV))
+        d = ctx["build"]("ship", "mon-core")
+        for i in range(4):
+            jobs.append(bin_job("C07", "mon-core", "vg", d, ctx, i, 4, extra=["--small"],
+                                wrapper=["valgrind", "--quiet", "--error-exitcode=97", "--tool=memcheck"]))
+    return jobs
+
+
+def c07_post(done):
+    """Differential monitor: the same seeded call sequences must produce the same observables in the checked and
+    the shipped build (a release-only divergence is a violation)."""
+    dig = {}
+    for job, res, info in done:
+        if res and job.get("flavour") in ("chk", "ship") and res.get("extra"):
+            dig.setdefault(res["extra"].get("shard"), {})[job["flavour"]] = (res["extra"].get("digest"), res.get("violation_total", 0))
+    out = []
+    for shard, d in sorted(dig.items()):
+        if "chk" in d and "ship" in d and d["chk"][1] == 0 and d["ship"][1] == 0 and d["chk"][0] != d["ship"][0]:
+            out.append(dict(kind="checked-vs-shipped-digest-differs", signature="digest", flavour="chk+ship",
+                            detail=f"shard {shard}: digest of all observables is {d['chk'][0]} in the checked build and "
+                                   f"{d['ship'][0]} in the shipped build for the same seeded API call sequences",
+                            replay=dict(shard=shard)))
+    return out
+
+
+PROPS["C07"] = dict(
+    jobs=c07_jobs,
+    post=c07_post,
+    replay=core_replay("C07"),
+    rule=("each evaluation = one seeded sequence of safe public API calls (parse, builder ops + build with clock extremes, "
+          "legals / legals_masked / king_legals of either colour, MoveGen next/len/is_empty/size_hint/count/set_mask/remove/"
+          "remove_move/clone, is_legal, move_new/mut/into with legal and arbitrary triples, king_sq, state, in_check, zobrist, "
+          "Hash, Display, Debug, {:#?}, {:x}/{:X}/{:b}, perft_test(<=2), Engine::search with small poll budgets and a "
+          "populated ThreeFold, ThreeFold add/get/Debug, raw accessors, re-parse of the writer's output) on an accepted "
+          "position; positions = extremal move-list families (up to 16 mobile men + two e.p. capturers), crafted castling / "
+          "promotion / e.p. families, corpus, seeded random placements incl. the 'accepted but not chess' stratum (pawns on "
+          "ranks 1/8, implausible e.p. markers), every FEN mutation the parser accepts, plus sentinels (CPW position 3 and its "
+          "mirror searched with 200000 polls, terminal / clock-99 positions with 70000-140000 polls, builder clocks "
+          "65534/65535 followed by moves, 300 repetitions); the oracle is the build: checked flavour (every panic = "
+          "violation), Miri on the release profile (UB), and a chk-vs-ship digest comparison per shard; thorough adds Miri "
+          "dev, ASan, valgrind; slider-table and book index ranges are exercised by C08 / C17 in the same flavours; "
+          "distinct_nontrivial = distinct (input, sequence seed) pairs"),
+    floor=dict(any={"sequences-completed": 3000, "api:search": 3000, "api:movegen-ops": 5000, "positions:extremal": 50,
+                    "positions:random-accepted-not-chess": 500, "positions:fen-mutation": 3000,
+                    "max:move-list-entries-estimated": 18, "sentinel-searches": 8, "clock-extreme-cases": 8,
+                    "long-repetition-cases": 2}),
+    watchdog=dict(quick=1500, thorough=14400),
+    assumptions=[CHK_ASSUMPTION, "Miri interprets the release profile (debug assertions off) so the unchecked fast paths "
+                 "are what is checked for UB; ASan cannot see the intra-object overflow of the 18-slot move list (the checked "
+                 "build's arrayvec assertion and Miri can)",
+                 "RawBoard's own public mutators on a free-standing RawBoard and the unsafe move_unchecked* functions are "
+                 "out of scope (not safe calls on an accepted position)"],
 )
